@@ -4,7 +4,7 @@ from vf.flo import common
 LEVEL = "exploration"
 RULE = ("seeded random programs in which frames at several levels carry 0-3 plain auxiliaries (shared originals across sibling, "
         "ancestor and descendant frames), auxiliaries with their own transitions and `done` verbs in several contexts, and "
-        "`if aux .. / any / all [in frame ..] is done` transitions; distinct = distinct program text; non-trivial = at least 3 aux "
+        "`if aux .. / any / all [in frame ..] is done` transitions; a feature set with plain auxiliaries on frames suspended by conditional auxiliaries; plans with several houses in which a clone carries the `aux helper` of its own house; distinct = distinct program text; non-trivial = at least 3 aux "
         "activations and one done-condition evaluated")
 META = {"engine": "A floscript", "technique": "trace monitor of aux lifetime (enter/run/recur/exit positions) + done-flag oracle + "
                                                "differential check against the reference interpreter",
